@@ -78,11 +78,11 @@ def values_for(slot, bl, res, rnd):
         v = rnd.choice(reps) / one
         return repr(v) if slot == "c" else v
     if slot == "i":
-        return rnd.choice([0, 1, -1, 2, 3, -3, 7, rnd.randint(-20, 20), rnd.randint(-int(h ** 0.5), int(h ** 0.5))])
+        return rnd.choice([0, 1, -1, 2, 3, -3, 7, rnd.randint(-20, 20), rnd.randint(-int(h ** 0.5), int(h ** 0.5)), (1 << 53) + 1, -((1 << 60) + 3), 3 ** 40])
     if slot == "b":
         return rnd.randint(0, 1)
     if slot == "K":
-        return rnd.choice([0, 1, -1, 2, -2, 3, 5, -7, 10])
+        return rnd.choice([0, 1, -1, 2, -2, 3, 5, -7, 10, (1 << 53) + 1, -((1 << 60) + 3), 3 ** 40])
     if slot == "k":
         return rnd.choice([1, 2, 3, 5, 8])
     if slot == "s":
